@@ -136,6 +136,12 @@ func (c *Conn) write(ctx context.Context, typ MessageType, p []byte) (int, error
 }
 
 func (mw *msgWriter) reset(ctx context.Context, typ MessageType) error {
+	if typ != MessageText && typ != MessageBinary {
+		// The type becomes the opcode of the first frame: anything else would put a
+		// continuation, control or reserved frame on the wire in place of a message.
+		return fmt.Errorf("invalid message type %d", int(typ))
+	}
+
 	err := mw.mu.lock(ctx)
 	if err != nil {
 		return err
